@@ -8,7 +8,7 @@
 (*   Repaired = TRUE  : the proposed repair (/tmp/X06-fixes): one lock for the loop head, the             *)
 (*                      registration of an interface, the creation of the responder and the whole of      *)
 (*                      restart() / shutdown(); a flag `stopping` that makes late comers give up.          *)
-(*   FixNoIf          : 'no interface started' shuts the modules down before run() returns.               *)
+(*   FixNoIf          : 'no interface started' shuts the modules down before run() returns (98cfad6).     *)
 (* TLC checks the properties below on the repaired design (must hold) and on the pinned one (must fail:   *)
 (* MC_ServerRun_asimpl_*.cfg - each failure is a finding reproduced on the real code by x06.py).          *)
 EXTENDS Integers, Sequences, FiniteSets, TLC
@@ -117,10 +117,16 @@ M_Report == /\ mpc = "report"
 M_WaitAll == M_Wait /\ \A i \in Ifs : i \in trig
 M_WaitTimeout == M_Wait /\ \E i \in Ifs : i \notin trig
 M_NoIf == /\ mpc = "noif" /\ ~Repaired
-          /\ mods' = IF FixNoIf THEN [mods EXCEPT ![gen] = "down"] ELSE mods
-          /\ mpc' = "returned"
-          /\ UNCHANGED <<gen, kind, rflag, stopping, lock, ifdict, reg, regord, hooks, downlog, reports, ann, annOK,
+          /\ mpc' = IF FixNoIf THEN "noifdown" ELSE "returned"
+          /\ UNCHANGED <<gen, kind, rflag, stopping, lock, mods, ifdict, reg, regord, hooks, downlog, reports, ann, annOK,
                          bootAfterShut>> /\ UNCHANGED <<ifv, isreq, reqv, discv>>
+(* 98cfad6: shutdown_modules() before the return (it first waits for the poll threads: the interface threads, which *)
+(* have all failed, are over by then)                                                                              *)
+M_NoIfDown == /\ mpc = "noifdown"
+              /\ \A i \in Ifs : ipc[i] = "end"
+              /\ mods' = [mods EXCEPT ![gen] = "down"] /\ mpc' = "returned"
+              /\ UNCHANGED <<gen, kind, rflag, stopping, lock, ifdict, reg, regord, hooks, downlog, reports, ann, annOK,
+                             bootAfterShut>> /\ UNCHANGED <<ifv, isreq, reqv, discv>>
 (* _interfaces property and 'startup done with interface(s)' *)
 M_Prop == /\ mpc = "prop" /\ ~Repaired
           /\ ann' = reg /\ annOK' = (annOK /\ reg \subseteq {i \in Ifs : Accepting(i) \/ i \in crashed})
@@ -170,7 +176,7 @@ M_LogDown == /\ mpc = "logdown"
              /\ UNCHANGED <<gen, kind, rflag, stopping, lock, mods, ifdict, reg, regord, hooks, reports, ann, annOK,
                             bootAfterShut>> /\ UNCHANGED <<ifv, isreq, reqv, discv>>
 
-Main == M_LoopTest \/ M_Clear \/ M_LoopHead \/ M_Cfg \/ M_Dict \/ M_Spawn \/ M_Wait \/ M_Report \/ M_NoIf
+Main == M_LoopTest \/ M_Clear \/ M_LoopHead \/ M_Cfg \/ M_Dict \/ M_Spawn \/ M_Wait \/ M_Report \/ M_NoIf \/ M_NoIfDown
         \/ M_Prop \/ M_PropDisc \/ M_Disc \/ M_Join \/ M_ShutMods \/ M_HookTest \/ M_LogDown
 
 ------------------------------------------------------------------------------
